@@ -308,7 +308,8 @@ class StructuredDofsCoeffs(BasisContract):
         q = e[0]
         for i in range(1, r):
             cur = q * T[i] + e[i]
-            cx.assume(z3.And(cur / T[i] == q, cur % T[i] == e[i]), axiom='L-DIVMOD: divmod(q*n + r, n) = (q, r) for 0 <= r < n (ground instances for the element digits)')
+            from pyvc.values import pyfloordiv, pymod
+            cx.assume(z3.And(cur / T[i] == q, cur % T[i] == e[i], pyfloordiv(cur, T[i]) == q, pymod(cur, T[i]) == e[i]), axiom='L-DIVMOD: divmod(q*n + r, n) = (q, r) for 0 <= r < n (ground instances for the element digits)')
             q = cur
         me = SObj('StructuredBasis', attrs=dict(
             _transforms_shape=tuple(SInt(t) for t in T), _dofs_shape=tuple(SInt(n) for n in N),
